@@ -32,8 +32,10 @@ def build(case):
     out = []
     for i, (lat, lon) in enumerate((case["p0"], case["p1"])):
         yz, xz, rlat, _, _ = cpr.encode(lat, lon, i, True)
-        me = cpr.me_surface(case["tc"][i], case["mov"], case["trk"] >> 7, case["trk"] & 127, case["tbit"], i, yz, xz)
-        hx = "%028X" % bits.es_frame(case["df"], case["ca"], case["addr"], me)
+        # every non-position field may differ between the two frames of a pair (they are independent transmissions)
+        pf = lambda k: case[k][i] if isinstance(case[k], list) else case[k]  # noqa
+        me = cpr.me_surface(case["tc"][i], pf("mov"), pf("trk") >> 7, pf("trk") & 127, pf("tbit"), i, yz, xz)
+        hx = "%028X" % bits.es_frame(case["df"], pf("ca"), case["addr"], me)
         out.append((hx.lower() if case.get("lower") and (case["lower"] >> i) & 1 else hx, rlat))
     return out
 
@@ -160,8 +162,9 @@ def mkcase(rng, lat, lon, order=None, rx=None):
     gap = rng.choice((1, 2, 5, 9, 0.5, 0.4))
     te, to = (base + gap, base) if o == "e" else (base, base + gap) if o == "o" else (base, base)
     return {"p0": [lat, lon], "p1": [lat1, lon1], "rx": rx, "tc": [rng.choice((5, 6, 7, 8)), rng.choice((5, 6, 7, 8))],
-            "mov": rng.randrange(128), "trk": rng.randrange(256), "tbit": rng.randrange(2), "df": rng.choice((17, 17, 18)),
-            "ca": rng.randrange(8), "addr": rng.fill(24), "te": te, "to": to, "dt": rng.random() < 0.15,
+            "mov": [rng.randrange(128), rng.randrange(128)], "trk": [rng.randrange(256), rng.randrange(256)],
+            "tbit": [rng.randrange(2), rng.randrange(2)], "df": rng.choice((17, 17, 18)),
+            "ca": [rng.randrange(8), rng.randrange(8)], "addr": rng.fill(24), "te": te, "to": to, "dt": rng.random() < 0.15,
             "api": rng.choice(("position", "surface_position")), "lower": rng.choice((0, 0, 0, 0, 0, 0, 0, 1, 2, 3))}
 
 
